@@ -16,6 +16,9 @@ def run(tier):
     per = 20 if tier == "quick" else 50
     common.pmap(c01.cons_work, [(exes, s + 700000, per, PID) for s in range(0, total, per)], res)
     common.pmap(c01.cons_work, [(exes, s + 700000, per, PID, "tp") for s in range(0, total // 3, per)], res)
+    from checks import c17
+    oexes = {v: exes[v] for v in sorted(exes)[:2]}
+    common.pmap(c17.work, [(oexes, s, per, PID) for s in range(0, total // 2, per)], res)
     from checks import plan
     plan.run_families(res, exes, tier, PID)
     res.gate("equivalent formulations compared", res.counters.get("cons: equivalent formulations compared", 0) + res.counters.get("tp: equivalent formulations compared", 0) > 300)
